@@ -31,7 +31,10 @@ RULE = ('conn arm: 2-3 connections on a DB over FileStorage (simulated '
         'read it after their boundary, unresolvable cases raise '
         'ConflictError and store nothing.  storage arm: the C04 driver '
         'with stale-serial stores of records in every reference format '
-        '(incl. cross-database) and of a class that cannot be imported.  '
+        '(incl. cross-database) and of a class that cannot be imported; '
+        'and undo histories (single and multi-transaction undos of '
+        'objects changed again later, so that the undo must merge -- in a '
+        'multi-undo against a record of the same undo transaction).  '
         'non-trivial = >= 1 resolution attempted; distinct = outcome trace')
 BUDGET = {'quick': {'runs': 5000, 'wall': 300, 'chunk': 25},
           'thorough': {'runs': 150000, 'wall': 3000, 'chunk': 50}}
@@ -58,9 +61,41 @@ MergeNA.__module__ = 'zsim.objs'
 MergeNA.__qualname__ = 'MergeNA'
 
 
+def gen_undo(r, tier):
+    """Storage arm, undo path: the undo of a transaction whose object was
+    changed again later stores resolver(state to restore... ) -- here the
+    writer is the undo: it starts from the undone revision, wants the
+    state before it, and the committed state is the current one (which,
+    in a multi-undo, may be a record of the same undo transaction)."""
+    noids = r.choice((1, 1, 2, 3))
+    cls_of = [r.choice(('Merge', 'Merge', 'Merge', 'Boom', 'Boom2', 'Cell'))
+              for _ in range(noids)]
+    ops = []
+    for _ in range(r.randint(4, 11)):
+        if r.random() < 0.6:
+            op = G.gen_txn(r, noids, 'file', aborts=False,
+                           classes=('Merge',), refs=True,
+                           sizes=(0, 0, 10, 200))
+            for rec in op['recs']:
+                rec['cls'] = cls_of[rec['o'] % noids]
+                if rec.get('serial') in ('bogus', 'zero', 'stale2'):
+                    rec.pop('serial')
+            ops.append(op)
+        else:
+            k = r.choice((1, 1, 2, 2, 3))
+            ops.append({'op': 'undo',
+                        'targets': [-2 - r.randrange(4) for _ in range(k)]})
+    return {'arm': 'storage', 'sub': 'undo', 'ops': ops, 'kind': r.choice(
+        ('file', 'file', 'demo:mapping:file', 'demo:file:file')),
+        'bufsize': 8192, 'tier': tier}
+
+
 def gen(seed, tier):
     r = random.Random(seed)
-    if r.random() < 0.3:
+    x = r.random()
+    if x < 0.12:
+        return gen_undo(r, tier)
+    if x < 0.4:
         ops = []
         noids = r.choice((1, 2, 3))
         for _ in range(r.randint(3, 10)):
@@ -388,9 +423,9 @@ def run_storage(case):
             d.close()
         except Exception:       # noqa: B902
             pass
-    nres = sum(1 for o in d.outcomes if o in ('conflict', 'commit'))
     stats = {'sim_time_s': sim.clock.elapsed(), 'arm:storage': 1,
              'kind:' + case['kind']: 1,
+             'sub:' + case.get('sub', 'store'): 1,
              'resolver_calls': len(objs.RESOLVE_CALLS)}
     for o in d.outcomes:
         stats['outcome:' + o] = stats.get('outcome:' + o, 0) + 1
@@ -423,7 +458,7 @@ LEVEL_TEXT = ('seeded search over interleavings of 2-3 connections\' '
 LEVEL_NOTE = ('interleaving at transaction-step granularity (no '
               'pre-emption inside a commit: that is C03); cross-database '
               'reference formats only in the storage arm; undo-path '
-              'resolution is checked by C06; trusted: decoder, merge '
+              'resolution also by C06; trusted: decoder, merge '
               'function')
 TECHNIQUE = ('deterministic simulation: seeded step interleaving of several '
              'connections, harness-computed three-way merge oracle, '
